@@ -56,12 +56,23 @@ def _absence(rng, horizon=14, maxn=3):
 
 def gen_random(rng, prof=None):
     p = prof or DEFAULT_PROFILE
+    # a small share of LARGE models: many tasks / resources, long chains and wide fan-in, big and tiny numbers,
+    # runs of hundreds of steps, late and many absence steps, two-digit numbers inside the ID strings
+    big = rng.random() < p.get("large", 0.025)
     n = rng.randint(p["min_tasks"], p["max_tasks"])
+    if big:
+        n = rng.randint(max(p["min_tasks"], 12), 36)
     ties = rng.random() < p["ties"]
     works = [1.0, 2.0] if ties else WORKS
     skills = [1.0, 1.0, 0.0] if ties else SKILLS
     costs = [1.0] if ties else COSTS
+    if big and not ties:
+        works = WORKS + [12.0, 20.0, 33.3, 50.0, 120.0] + ([1500.0] if rng.random() < 0.15 else [])
+        skills = SKILLS + [0.01, 7.5]
+        costs = COSTS + [1234.5678, 0.001, 99.99]
     dens = rng.uniform(*p["p_edge"])
+    if big:
+        dens *= 0.25
     frich = p["facility_rich"]
     tasks = []
     for i in range(n):
@@ -69,6 +80,12 @@ def gen_random(rng, prof=None):
         for j in range(i):
             if rng.random() < dens:
                 deps.append([j, rng.choice(p["kinds"])])
+        if big and i and not any(d[0] == i - 1 for d in deps) and rng.random() < 0.55:
+            deps.append([i - 1, rng.choice(p["kinds"])])        # long chains
+        if big and i == n - 1 and rng.random() < 0.5:
+            for j in range(max(0, i - 14), i):                   # wide fan-in at the end
+                if not any(d[0] == j for d in deps):
+                    deps.append([j, rng.choice(p["kinds"])])
         tasks.append(dict(
             name="t%d" % i, id="T%d" % i,
             work=rng.choice(works), progress=rng.choice(PROGRESS),
@@ -81,6 +98,8 @@ def gen_random(rng, prof=None):
     ncomp = 0
     if p["comps"]:
         ncomp = rng.randint(1, 4) if frich else rng.randint(0, 4)
+        if big:
+            ncomp = rng.randint(3, 12)
     comps = [dict(name="c%d" % k, id="C%d" % k, space=rng.choice([0.5, 1.0, 1.0, 2.0]), children=[])
              for k in range(ncomp)]
     if p["nested"]:
@@ -95,19 +114,23 @@ def gen_random(rng, prof=None):
     for t in tasks:
         if ncomp and rng.random() < (0.85 if frich else 0.6):
             t["component"] = rng.randrange(ncomp)
+            if big and t["auto"] and rng.random() < 0.85:
+                t["component"] = None     # (large models: few component-bound automatic tasks, so that many complete)
     # --- workplaces / facilities
     nwp = 0
     if p["facilities"] and ncomp:
         nwp = rng.randint(1, 3) if frich else rng.randint(0, 3)
+        if big:
+            nwp = rng.randint(2, 6)
     wps = []
     for k in range(nwp):
         facs = []
-        for f in range(rng.randint(1, 3)):
+        for f in range(rng.randint(1, 3) if not big else rng.randint(2, 12)):
             facs.append(dict(
                 name="f%d_%d" % (k, f), id="F%d_%d" % (k, f), skills={}, cost=rng.choice(costs),
                 solo=p["solo"] and rng.random() < 0.2,
-                absence=_absence(rng) if p["res_absence"] and rng.random() < p["p_res_absence"] else []))
-        wps.append(dict(name="wp%d" % k, id="WP%d" % k, max_space=rng.choice([1.0, 1.5, 2.0, 3.0]),
+                absence=(_absence(rng) if not big else _absence(rng, horizon=250, maxn=10)) if p["res_absence"] and rng.random() < p["p_res_absence"] else []))
+        wps.append(dict(name="wp%d" % k, id="WP%d" % k, max_space=rng.choice([1.0, 1.5, 2.0, 3.0] + ([6.0, 12.0] if big else [])),
                         inputs=[], targets=[], facilities=facs))
     for k in range(1, nwp):
         if rng.random() < 0.35:
@@ -115,7 +138,7 @@ def gen_random(rng, prof=None):
             if rng.random() < 0.2:
                 wps[k]["ctor_inputs"] = True      # link given to the constructor (one-sided)
     for i, t in enumerate(tasks):
-        if nwp and t["component"] is not None and not t["auto"] and rng.random() < (0.9 if frich else 0.5):
+        if nwp and t["component"] is not None and not t["auto"] and rng.random() < ((0.9 if frich else 0.5) if not big else 0.3):
             t["need_facility"] = True
         if nwp and t["component"] is not None and (t["need_facility"] or rng.random() < 0.3):
             for k in range(nwp):
@@ -127,15 +150,15 @@ def gen_random(rng, prof=None):
                     if rng.random() < (0.85 if frich else 0.6):
                         f["skills"][t["name"]] = rng.choice(skills)
     # --- teams / workers
-    nteam = rng.randint(1, 3)
+    nteam = rng.randint(1, 3) if not big else rng.randint(2, 6)
     teams = []
     for k in range(nteam):
         workers = []
-        for w in range(rng.randint(1, 4)):
+        for w in range(rng.randint(1, 4) if not big else rng.randint(2, 12)):
             workers.append(dict(
                 name="w%d_%d" % (k, w), id="W%d_%d" % (k, w), skills={}, fskills={},
                 cost=rng.choice(costs), solo=p["solo"] and rng.random() < 0.2,
-                absence=_absence(rng) if p["res_absence"] and rng.random() < p["p_res_absence"] else [],
+                absence=(_absence(rng) if not big else _absence(rng, horizon=250, maxn=10)) if p["res_absence"] and rng.random() < p["p_res_absence"] else [],
                 main_wp=("WP%d" % rng.randrange(nwp)) if nwp and rng.random() < 0.4 else None))
         teams.append(dict(name="team%d" % k, id="TM%d" % k, targets=[], workers=workers))
     for i, t in enumerate(tasks):
@@ -155,7 +178,7 @@ def gen_random(rng, prof=None):
                         w["fskills"][f["name"]] = rng.choice([1.0, 1.0, 1.0, 0.0])
     # give most tasks one eligible worker, so that a good share of models can complete
     for i, t in enumerate(tasks):
-        if t["auto"] or rng.random() >= p["ensure_worker"]:
+        if t["auto"] or rng.random() >= (p["ensure_worker"] if not big else max(p["ensure_worker"], 0.96)):
             continue
         k = rng.randrange(nteam)
         w = rng.choice(teams[k]["workers"])
@@ -180,9 +203,9 @@ def gen_random(rng, prof=None):
         all_w = [w["id"] for tm in teams for w in tm["workers"]]
         all_f = [f["id"] for wp in wps for f in wp["facilities"]]
         for t in tasks:
-            if not t["auto"] and rng.random() < 0.15:
+            if not t["auto"] and rng.random() < (0.15 if not big else 0.03):
                 t["fixed_workers"] = sorted(rng.sample(all_w, min(len(all_w), rng.randint(1, 2))))
-            if t["need_facility"] and all_f and rng.random() < 0.15:
+            if t["need_facility"] and all_f and rng.random() < (0.15 if not big else 0.03):
                 t["fixed_facilities"] = sorted(rng.sample(all_f, min(len(all_f), rng.randint(1, 2))))
     if p["fixed_lists"]:
         for t in tasks:
@@ -197,7 +220,7 @@ def gen_random(rng, prof=None):
             tm["ctor_targets"] = True
     absence = []
     if p["proj_absence"] and rng.random() < 0.4:
-        absence = _absence(rng, horizon=16, maxn=4)
+        absence = _absence(rng, horizon=16, maxn=4) if not big else _absence(rng, horizon=300, maxn=40)
         if rng.random() < 0.3:
             a0 = rng.randrange(0, 8)
             absence = sorted(set(absence) | {a0, a0 + 1})  # consecutive steps
@@ -206,7 +229,7 @@ def gen_random(rng, prof=None):
     if len(absence) >= 2 and rng.random() < 0.25:
         rng.shuffle(absence)              # the user's list need not be sorted
     sim = dict(rule=rng.randrange(0, 9), absence=absence, auto_flag=rng.random() < 0.5,
-               max_time=p["max_time"])
+               max_time=p["max_time"] if not big else p["max_time"] * 8)
     if n >= 2 and rng.random() < p.get("same_name", 0.06):
         # task names need not be unique (skills are per name, targeting and dependencies per object)
         j = rng.randrange(1, n)
@@ -223,7 +246,10 @@ def gen_random(rng, prof=None):
             for t in tasks:
                 if t["fixed_workers"]:
                     t["fixed_workers"] = [new_id if x == old_id else x for x in t["fixed_workers"]]
-    return dict(tasks=tasks, comps=comps, wps=wps, teams=teams, sim=sim, task_order=task_order)
+    out = dict(tasks=tasks, comps=comps, wps=wps, teams=teams, sim=sim, task_order=task_order)
+    if big:
+        out["large"] = True
+    return out
 
 
 # ---------------------------------------------------------------------------------------
@@ -597,3 +623,186 @@ def add_idle_parts(rng, spec):
         k = len(spec["comps"])
         spec["comps"].append(dict(name="spare", id="C%d" % k, space=1.0, children=[]))
     return spec
+
+
+# ---------------------------------------------------------------------------------------
+# G-scale: models beyond the usual small sizes (each kind stretches ONE dimension, the others stay small so
+# that a monitored run remains cheap)
+# ---------------------------------------------------------------------------------------
+SCALE_KINDS = ("long", "wide", "one_component", "ff_chain", "many_resources", "numeric_ids", "many_components")
+
+
+def gen_scale(rng, kind=None, kinds=(FS, SS, FF, SF)):
+    kind = kind or rng.choice(SCALE_KINDS)
+    if kind == "long":
+        # a small model that runs for hundreds of steps: big work amounts / tiny skills, late and long absence
+        # blocks (project-wide and individual), costs with many digits
+        spec = gen_random(rng, profile(large=0.0, max_tasks=6, min_tasks=2, ensure_worker=0.97, nested=False, kinds=kinds,
+                                       fixed_lists=False, max_time=1500))
+        f = rng.choice([40.0, 100.0, 250.0])
+        for t in spec["tasks"]:
+            t["work"] = round(t["work"] * f, 4)
+            if t["auto"] and t["rate"] is None and rng.random() < 0.5:
+                t["rate"] = rng.choice([1.0, 2.0, 5.0])
+        if rng.random() < 0.3:
+            for tm in spec["teams"]:
+                for w in tm["workers"]:
+                    for k in list(w["skills"]):
+                        w["skills"][k] = round(w["skills"][k] * 0.01, 6)     # skills of 1e-3 .. 3e-2
+            for t in spec["tasks"]:
+                t["work"] = round(t["work"] / 100.0, 6)
+        r = rng.random()
+        if r < 0.6:
+            a0 = rng.choice([20, 60, 130, 300])
+            block = list(range(a0, a0 + rng.choice([3, 30, 101, 140])))
+            if rng.random() < 0.6:
+                spec["sim"]["absence"] = block
+            else:
+                ws = [w for tm in spec["teams"] for w in tm["workers"]]
+                for w in rng.sample(ws, max(1, len(ws) // 2)):
+                    w["absence"] = list(block)
+        elif r < 0.8:
+            spec["sim"]["absence"] = sorted(rng.sample(range(0, 600), rng.randint(20, 80)))
+        for tm in spec["teams"]:
+            for w in tm["workers"]:
+                if rng.random() < 0.4:
+                    w["cost"] = rng.choice([1234.5678, 0.001, 99.99, 3.3333333])
+        spec["sim"]["max_time"] = 1500
+    elif kind in ("wide", "one_component", "many_resources"):
+        # hundreds of tasks, every one short and with a worker of its own: a run of a few steps
+        n = rng.choice([40, 130, 257, 257, 300]) if kind == "wide" else rng.choice([33, 40, 70])
+        if kind == "many_resources":
+            n = rng.choice([12, 20])
+        tasks = []
+        join = rng.random() < 0.7
+        jk = rng.choice(kinds) if rng.random() < 0.7 else None          # one kind for the whole fan-in, or mixed
+        for i in range(n):
+            deps = []
+            if join and i == n - 1:
+                deps = [[j, jk if jk is not None else rng.choice(kinds)] for j in range(n - 1)]       # fan-in of n-1
+            elif not join and i and rng.random() < 0.3:
+                deps = [[rng.randrange(0, i), rng.choice(kinds)]]
+            tasks.append(_simple_task(i, rng.choice([1.0, 1.0, 2.0, 0.0]), deps))
+        comps, wps = [], []
+        if kind == "one_component":
+            comps = [dict(name="c0", id="C0", space=1.0, children=[])]
+            for t in tasks:
+                t["component"] = 0
+            if rng.random() < 0.5:
+                # the head task is registered LAST on the component / in the workflow
+                tasks[0]["deps"], tasks[-1]["deps"] = [], []
+                for i in range(n - 1):
+                    tasks[i]["deps"] = [[n - 1, FS]]
+        nw = n if kind != "many_resources" else rng.choice([150, 300])
+        workers = []
+        for i in range(nw):
+            sk = {"t%d" % (i % n): 1.0}
+            if kind == "many_resources":
+                sk = {"t%d" % k: rng.choice([0.5, 1.0, 2.0]) for k in rng.sample(range(n), 3)}
+            workers.append(_worker(i // 100, i % 100, sk, cost=rng.choice([1.0, 2.5])))
+            if rng.random() < 0.12:
+                workers[-1]["absence"] = sorted(rng.sample(range(0, 6), rng.randint(1, 2)))
+        teams = []
+        for k in range((nw + 99) // 100):
+            teams.append(dict(name="team%d" % k, id="TM%d" % k, targets=list(range(n)), workers=workers[k * 100:(k + 1) * 100]))
+        if kind == "many_resources" and rng.random() < 0.6:
+            # facility tasks on single-task components, one big workplace: many free workers AND pairs
+            comps = [dict(name="c%d" % i, id="C%d" % i, space=1.0, children=[]) for i in range(n)]
+            for i, t in enumerate(tasks):
+                if rng.random() < 0.7:
+                    t["component"], t["need_facility"] = i, True
+            facs = [dict(name="f0_%d" % j, id="F0_%d" % j, skills={"t%d" % i: 1.0 for i in range(n)}, cost=1.0, solo=False, absence=[])
+                    for j in range(rng.randint(4, 10))]
+            wps = [dict(name="wp0", id="WP0", max_space=float(n), inputs=[], targets=list(range(n)), facilities=facs)]
+            for w in workers:
+                w["fskills"] = {f["name"]: 1.0 for f in facs}
+        order = None
+        if rng.random() < 0.5:
+            order = list(range(n))
+            rng.shuffle(order)
+        spec = dict(tasks=tasks, comps=comps, wps=wps, teams=teams,
+                    sim=dict(rule=rng.randrange(9), absence=[] if rng.random() < 0.7 else [0, 2], auto_flag=False, max_time=60),
+                    task_order=order)
+    elif kind == "ff_chain":
+        # a chain of 11..40 finish-gated tasks that all reach zero in the same step, listed tail to head (or shuffled)
+        n = rng.choice([11, 12, 16, 30, 40])
+        k0 = rng.choice([FF, FF, SF, FF]) if FF in kinds else rng.choice(kinds)
+        w0 = rng.choice([1.0, 2.0, 3.0])
+        tasks = [_simple_task(i, w0, [[i - 1, k0 if rng.random() < 0.85 else rng.choice(kinds)]] if i else []) for i in range(n)]
+        workers = [_worker(0, i, {"t%d" % i: 1.0}) for i in range(n)]
+        teams = [dict(name="team0", id="TM0", targets=list(range(n)), workers=workers)]
+        order = list(range(n))
+        r = rng.random()
+        if r < 0.6:
+            order.reverse()
+        elif r < 0.8:
+            rng.shuffle(order)
+        spec = dict(tasks=tasks, comps=[], wps=[], teams=teams,
+                    sim=dict(rule=rng.randrange(9), absence=[], auto_flag=False, max_time=80), task_order=order)
+    elif kind == "numeric_ids":
+        # ten and more teams / workplaces and two-digit running numbers: ID strings that are prefixes of each
+        # other ("Team1" / "Team11") and task IDs that start with a digit ("3", "13")
+        nt = rng.randint(10, 14)
+        n = 2 * nt
+        tasks = [_simple_task(i, rng.choice([1.0, 2.0, 3.0]), [[i - nt, rng.choice(kinds)]] if i >= nt and rng.random() < 0.5 else []) for i in range(n)]
+        for i, t in enumerate(tasks):
+            t["id"] = "%d" % (i + 1)
+        teams = []
+        for k in range(nt):
+            w = _worker(k, 0, {"t%d" % j: 1.0 for j in range(n) if rng.random() < 0.6 or j in (k, k + nt)})
+            w["id"] = "W%d" % (k + 1)
+            teams.append(dict(name="team%d" % (k + 1), id="Team%d" % (k + 1), targets=[k, k + nt], workers=[w]))
+        spec = dict(tasks=tasks, comps=[], wps=[], teams=teams,
+                    sim=dict(rule=rng.randrange(9), absence=[], auto_flag=False, max_time=120), task_order=None)
+        if rng.random() < 0.5:
+            # the same with workplaces: facility tasks on single-task components
+            nw = rng.randint(10, 12)
+            spec["comps"] = [dict(name="c%d" % i, id="C%d" % i, space=1.0, children=[]) for i in range(n)]
+            for i, t in enumerate(tasks):
+                t["component"], t["need_facility"] = i, True
+            for k in range(nw):
+                f = dict(name="f%d_0" % k, id="F%d" % (k + 1), skills={"t%d" % j: 1.0 for j in range(n) if rng.random() < 0.6 or j % nw == k},
+                         cost=1.0, solo=False, absence=[])
+                spec["wps"].append(dict(name="wp%d" % k, id="Shop%d" % (k + 1), max_space=3.0, inputs=[],
+                                        targets=[j for j in range(n) if j % nw == k], facilities=[f]))
+            for tm in teams:
+                for w in tm["workers"]:
+                    w["fskills"] = {"f%d_0" % k: 1.0 for k in range(nw)}
+    elif kind == "many_components":
+        # sixteen and more components lying in ONE workplace at the same time, of different sizes, arriving and
+        # leaving at different steps; the workplace is nearly full
+        nc = rng.randint(17, 26)
+        sizes = [rng.choice([0.5, 1.0, 1.0, 2.0, 3.0]) for _ in range(nc)]
+        tasks, comps = [], []
+        for i in range(nc):
+            tasks.append(_simple_task(i, rng.choice([3.0, 8.0, 20.0, 25.0, 30.0, 40.0]), [[rng.randrange(0, i), FS]] if i and rng.random() < 0.15 else []))
+            tasks[-1]["need_facility"], tasks[-1]["component"] = True, i
+            comps.append(dict(name="c%d" % i, id="C%d" % i, space=sizes[i], children=[]))
+        facs = [dict(name="f0_%d" % j, id="F0_%d" % j, skills={"t%d" % i: 1.0 for i in range(nc)}, cost=1.0, solo=False, absence=[])
+                for j in range(nc)]
+        cap = round(sum(sizes) * rng.choice([0.7, 0.85, 0.95, 1.0]), 2)
+        wps = [dict(name="wp0", id="WP0", max_space=cap, inputs=[], targets=list(range(nc)), facilities=facs)]
+        if rng.random() < 0.4:
+            wps.append(dict(name="wp1", id="WP1", max_space=round(cap / 3.0, 2), inputs=[], targets=list(range(nc)),
+                            facilities=[dict(name="f1_%d" % j, id="F1_%d" % j, skills={"t%d" % i: 1.0 for i in range(nc)}, cost=1.0, solo=False, absence=[]) for j in range(4)]))
+        workers = [_worker(0, j, {"t%d" % i: 1.0 for i in range(nc)}) for j in range(nc)]
+        for w in workers:
+            w["fskills"] = {f["name"]: 1.0 for wp in wps for f in wp["facilities"]}
+        teams = [dict(name="team0", id="TM0", targets=list(range(nc)), workers=workers)]
+        spec = dict(tasks=tasks, comps=comps, wps=wps, teams=teams,
+                    sim=dict(rule=rng.randrange(9), absence=[], auto_flag=False, max_time=200), task_order=None)
+    else:
+        raise ValueError(kind)
+    spec["scale"] = kind
+    return spec
+
+
+def gen_fs_chain(n, work=1.0):
+    """A never-simulated FS chain of n tasks (for checks that do not simulate: save/load, PERT on demand)."""
+    tasks = [_simple_task(i, work, [[i - 1, FS]] if i else []) for i in range(n)]
+    for i, t in enumerate(tasks):
+        t["id"] = "T%04d" % i
+    workers = [_worker(0, 0, {"t0": 1.0}), _worker(0, 1, {"t1": 1.0})]
+    teams = [dict(name="team0", id="TM0", targets=[0, 1], workers=workers)]
+    return dict(tasks=tasks, comps=[], wps=[], teams=teams, sim=dict(rule=0, absence=[], auto_flag=False, max_time=10),
+                task_order=None, scale="fs_chain_%d" % n)
